@@ -144,8 +144,23 @@ def check_reset(model, rep, R='C12.reset'):
     sx = ir.sx
     done = [o for o in outs if o.kind in ('fall', 'return')]
     if len(done) != 1:
-        rep.cannot(R, 'Powertrain.reset', f'{len(done)} completing paths', m.loc)
-        return
+        # several exits: one path does the work, the others return early.  The samples live in the elements, not in the Powertrain
+        # object (a second Powertrain over the same elements starts with an empty axis and full lists), so an exit that is taken on
+        # the state of the Powertrain's own axis and skips the elements leaves their lists as they are
+        full = [o for o in done if any(e[0] == 'loop' for e in o.state.effects)]
+        skipping = [o for o in done if not any(e[0] == 'loop' for e in o.state.effects)]
+        tf = (ir.sx.trivial_getter_field('Powertrain', 'time') or '_Powertrain__time').split('__')[-1]
+        own_axis = skipping and all(o.state.guards and all(tf in g.show(ir.ctx) for g in o.state.guards) for o in skipping)
+        if len(full) == 1 and own_axis:
+            for o in skipping:
+                rep.violation(R, 'Powertrain.reset:skipped', f'reset returns without touching the elements when {[g.show(ir.ctx)[:60] for g in o.state.guards]}: '
+                              f'the recorded samples belong to the elements, which may carry a history this Powertrain object has no axis for '
+                              f'(elements simulated through another Powertrain object); the next run then records on top of the old samples',
+                              f'{m.module}:{o.loc or m.node.lineno}')
+            done = full
+        else:
+            rep.cannot(R, 'Powertrain.reset', f'{len(done)} completing paths', m.loc)
+            return
     effs = done[0].state.effects
     # time axis emptied
     tfield = sx.trivial_getter_field('Powertrain', 'time') or '_Powertrain__time'      # the private field the `time` property returns
@@ -335,9 +350,45 @@ def check_stateless(model, rep, R='C12.reset'):
     rep.analysed['per_instant_methods_scanned_for_state'] = n
 
 
+ONE_SHOT = {'zip', 'map', 'filter', 'iter', 'reversed', 'enumerate'}
+
+
+def check_one_shot_state(model, rep, R='C12.state'):
+    """a field bound to a one-shot iterator (zip / map / filter / generator expression ...) is consumed by its first
+    traversal: whatever loops over it sees the elements during the first run and nothing during a continuation or a
+    rerun on the same object"""
+    import ast
+    n = 0
+    found = 0
+    for cname, ci in sorted(model.classes.items()):
+        if '/units/' in ci.module:
+            continue
+        stored = {}
+        for m in ci.all_members():
+            for x in ast.walk(m.node):
+                if isinstance(x, ast.Assign) and len(x.targets) == 1 and isinstance(x.targets[0], ast.Attribute) \
+                        and isinstance(x.targets[0].value, ast.Name) and x.targets[0].value.id == 'self':
+                    v = x.value
+                    if isinstance(v, ast.GeneratorExp) or (isinstance(v, ast.Call) and isinstance(v.func, ast.Name) and v.func.id in ONE_SHOT):
+                        stored[x.targets[0].attr] = (m, x)
+        n += 1
+        for attr, (m, x) in sorted(stored.items()):
+            readers = [mm.name for mm in ci.all_members() for y in ast.walk(mm.node)
+                       if isinstance(y, ast.Attribute) and y.attr == attr and isinstance(y.ctx, ast.Load)
+                       and isinstance(y.value, ast.Name) and y.value.id == 'self']
+            if readers:
+                found += 1
+                rep.violation(R, f'{cname}.{attr}:one-shot', f'`{ast.unparse(x)[:70]}` in {m.name} stores a one-shot iterator that {sorted(set(readers))[:3]} '
+                              f'read(s): the first traversal exhausts it, a continuation or a rerun on the same object iterates over nothing',
+                              f'{ci.module}:{x.lineno}')
+    if not found:
+        rep.holds(R, 'fields:one-shot', f'{n} classes scanned: no field is bound to a zip/map/filter/generator object')
+    rep.inspect(n)
+
+
 def check(model, rep):
     from checks.solver_common import absorb_arith, TIME_ARITH, EULER_ARITH, KIN_ARITH, TORQUE_ARITH
-    absorb_arith(model, rep, 'C12.dep.arith', TIME_ARITH)
+    absorb_arith(model, rep, 'C12.dep.arith', TIME_ARITH + EULER_ARITH)      # a rerun starts from the same constants only if the step's arithmetic leaves them alone
     rep.explain('C12: on the solver IR the continuation branch of Solver.run must reach the stepping loop without writing '
                 'element state, recording, appending an instant or re-initialising solver state with constants, and step from '
                 'Powertrain.time[-1] with unit-aware arithmetic; every Solver field that run() both writes and reads must be '
@@ -350,6 +401,13 @@ def check(model, rep):
         rep.cannot('C12.cont', 'Solver.run', str(e))
     check_reset(model, rep)
     check_stateless(model, rep)
+    check_one_shot_state(model, rep)
+    from sa.aliases import alias_findings
+    found, nscan = alias_findings(model)
+    for cname, f, ln, mod_, detail in found:
+        rep.violation('C12.reset', f'{cname}.{f}:alias', detail, f'{mod_}:{ln}')
+    if not found:
+        rep.holds('C12.reset', 'fields:alias', f'{nscan} classes scanned: no field keeps a reference to a container that its owner rebinds (time axis, time_variables entries)')
     try:
         check_pre_run_state(model, rep)
     except CannotDecide as e:
